@@ -29,6 +29,26 @@ pub struct AngleBracketedGenericArguments { pub args: Punctuated<GenericArgument
 pub enum PathArguments { None, AngleBracketed(AngleBracketedGenericArguments), Parenthesized(Opaque) }
 pub enum GenericArgument { Lifetime(Lifetime), Type(Type), Const(Opaque), AssocType(Opaque), AssocConst(Opaque), Constraint(Opaque) }
 pub struct PathSegment { pub ident: Ident, pub arguments: PathArguments }
+impl PathArguments { pub fn is_none(&self) -> (r: bool) ensures r == (*self is None) { match self { PathArguments::None => true, _ => false } } }
+pub struct Path { pub leading_colon: Option<Opaque>, pub segments: Punctuated<PathSegment> }
+pub struct Attribute { pub p: Path }
+impl Attribute { pub fn path(&self) -> (r: &Path) ensures *r == self.p { &self.p } }
+// R15 target: `V.iter().all(|x| BODY)` is rewritten to `iter_all_r15(&V, |x| BODY)`; verified here, not assumed
+pub fn iter_all_r15<T, F: Fn(&T) -> bool>(v: &Vec<T>, f: F) -> (r: bool)
+    requires forall|i: int| 0 <= i < v@.len() ==> f.requires((&v@[i],)),
+    ensures r ==> forall|i: int| 0 <= i < v@.len() ==> f.ensures((&v@[i],), true),
+            !r ==> exists|i: int| 0 <= i < v@.len() && f.ensures((&v@[i],), false),
+{
+    let mut k: usize = 0;
+    while k < v.len()
+        invariant 0 <= k <= v@.len(), forall|i: int| 0 <= i < v@.len() ==> f.requires((&v@[i],)), forall|i: int| 0 <= i < k ==> f.ensures((&v@[i],), true),
+        decreases v@.len() - k,
+    {
+        if !f(&v[k]) { return false; }
+        k += 1;
+    }
+    true
+}
 // proc_macro2: `impl<T: ?Sized + AsRef<str>> PartialEq<T> for Ident` (comparison with the text of the identifier), here at T = &str
 pub uninterp spec fn ident_is(i: Ident, s: &str) -> bool;
 impl PartialEq<&str> for Ident { #[verifier::external_body] fn eq(&self, other: &&str) -> (r: bool) ensures r == ident_is(*self, *other) { unimplemented!() } }
@@ -55,6 +75,12 @@ pub open spec fn ref_elem(t: Type) -> (Type, bool) {
         Type::Reference(tr) => if tr.lifetime.is_none() && tr.mutability.is_none() { (*tr.elem, true) } else { (strip(t), false) },
         o => (o, false),
     }
+}
+pub open spec fn seg_ok(s: PathSegment) -> bool { ident_is(s.ident, "derive_ex") && s.arguments is None }
+/// the documented spellings of a sibling request - `derive_ex`, `derive_ex::derive_ex`, `::derive_ex::derive_ex` - and nothing else (C15, C06, C14)
+pub open spec fn root_path(p: Path) -> bool {
+    (p.segments@.len() == 1 && seg_ok(p.segments@[0]) && p.leading_colon is None)
+    || (p.segments@.len() == 2 && seg_ok(p.segments@[0]) && seg_ok(p.segments@[1]))
 }
 /// `Rhs` of `impl Op<Rhs> for T`: the single type argument with `Self` written out, `T` itself if the path has no (or no such) argument
 pub open spec fn rhs_of(s: PathSegment, self_ty: Type) -> Type {
@@ -124,6 +150,13 @@ impl Args {
 //@ fn item_impl.rs to_rhs
 //@   attr #[verus_verify]
 //@   spec r => ensures r == rhs_of(*s, *self_ty)
+//@ end
+// C15 / C14 / C02 / C05 / C06: which attributes on the item are part of the request (merged into it and removed from the re-emitted item)
+//@ fn item_type.rs is_root_derive_ex_attr
+//@   attr #[verus_verify]
+//@   rewrite R15
+//@   spec r => ensures r == root_path(attr.p)
+//@   before |s| s.ident ## #[verus_spec(r: bool => ensures r == seg_ok(*s))]
 //@ end
 // C09: the Output of the derived forms is the type written in the first `type Output = ..;` of the user impl; Err iff there is none
 //@ fn item_impl.rs find_output_type
